@@ -59,6 +59,11 @@ Proof.
   - subst e2. constructor.
 Qed.
 
+Lemma simrel_match_kind : forall (A B : Type) (R : A -> B -> Prop) (k : model_kind) (a b : samp A) (a' b' : samp B),
+  simrel R a a' -> simrel R b b' ->
+  simrel R (match k with SIR => a | SIS => b end) (match k with SIR => a' | SIS => b' end).
+Proof. intros A B R k a b a' b' Ha Hb. destruct k; assumption. Qed.
+
 Section Flag.
 Variable g : graph.
 Variable kind : model_kind.
@@ -135,7 +140,11 @@ Proof.
   unfold gillespie.
   destruct rho as [r|]; destruct i0 as [l|].
   - constructor.
-  - destruct (_ <? 0)%Z; [constructor|]. constructor. intro ks. with_i0.
+  - destruct r0 as [l0|].
+    + apply simrel_match_kind.
+      * constructor.
+      * destruct (_ <? 0)%Z; [constructor|]. constructor. intro ks. with_i0.
+    + destruct (_ <? 0)%Z; [constructor|]. constructor. intro ks. with_i0.
   - with_i0.
   - cbn [Z.ltb Z.compare]. constructor. intro ks. with_i0.
 Qed.
